@@ -11,10 +11,61 @@ import (
 // origins returns the set of origin labels a byte value may derive from.
 // Labels: "param:<i>", "stored:<desc>" (result of a Cbor()/Bytes() accessor on stored bytes), "raw:<desc>" (RawMessage / DecodeRaw / Skip slices),
 // "encoded:<callee>", "nil", "const", "alloc", "free:<name>", "other:<desc>".
-func origins(v ssa.Value) map[string]bool {
+func origins(v ssa.Value) map[string]bool { return originsMode(v, false) }
+
+// originsIP additionally looks through calls to repository functions: their result is what they return, with the
+// parameters standing for the call's arguments.
+func originsIP(v ssa.Value) map[string]bool { return originsMode(v, true) }
+
+func originsMode(v ssa.Value, ip bool) map[string]bool {
 	out := map[string]bool{}
 	seen := map[ssa.Value]bool{}
 	var walk func(v ssa.Value, d int)
+	// walkHelper: the result of a call to a repository function with a body is whatever that function returns, with its
+	// parameters standing for the call's arguments (depth-limited, no recursion into the same function)
+	helperStack := map[*ssa.Function]bool{}
+	var walkHelper func(call *ssa.Call, idx int, d int) bool
+	walkHelper = func(call *ssa.Call, idx int, d int) bool {
+		h := call.Call.StaticCallee()
+		if cn := calleeName(&call.Call); strings.HasSuffix(cn, ".Cbor") || strings.HasSuffix(cn, ").Bytes") || strings.HasSuffix(cn, ").DecodeRaw") || strings.HasSuffix(cn, ").Skip") || strings.HasPrefix(cn, "cbor.Encode") || strings.HasSuffix(cn, ".MarshalCBOR") {
+			return false // these have a fixed meaning (stored / raw / encoded bytes)
+		}
+		if !ip || h == nil || len(h.Blocks) == 0 || h.Pkg == nil || !strings.HasPrefix(h.Pkg.Pkg.Path(), "github.com/blinklabs-io/gouroboros") || helperStack[h] || len(helperStack) >= 3 {
+			return false
+		}
+		helperStack[h] = true
+		defer delete(helperStack, h)
+		sub := map[string]bool{}
+		n := 0
+		for _, b := range h.Blocks {
+			r, ok := b.Instrs[len(b.Instrs)-1].(*ssa.Return)
+			if !ok || idx >= len(r.Results) {
+				continue
+			}
+			n++
+			for k := range originsMode(returnedValue(r, idx), true) {
+				sub[k] = true
+			}
+		}
+		if n == 0 {
+			return false
+		}
+		for k := range sub {
+			if strings.HasPrefix(k, "param:") {
+				i := int(k[len("param:")] - '0')
+				if i >= 0 && i < len(call.Call.Args) {
+					walk(call.Call.Args[i], d+1)
+					continue
+				}
+			}
+			if k == "nil" {
+				// an error path returning nil bytes adds nothing about where successful bytes come from
+				continue
+			}
+			out[k] = true
+		}
+		return true
+	}
 	walk = func(v ssa.Value, d int) {
 		if v == nil || seen[v] {
 			return
@@ -52,6 +103,9 @@ func origins(v ssa.Value) map[string]bool {
 				walk(e, d+1)
 			}
 		case *ssa.Extract:
+			if call, ok := x.Tuple.(*ssa.Call); ok && walkHelper(call, x.Index, d) {
+				return
+			}
 			walk(x.Tuple, d+1)
 		case *ssa.UnOp:
 			// load
@@ -100,6 +154,9 @@ func origins(v ssa.Value) map[string]bool {
 			case cn == "slices.Clone" || cn == "bytes.Clone":
 				walk(x.Call.Args[0], d+1)
 			default:
+				if walkHelper(x, 0, d) {
+					return
+				}
 				out["call:"+cn] = true
 			}
 		case *ssa.Alloc:
